@@ -344,7 +344,13 @@ latest one - of every looped component it references was over and recorded in `c
 theorem loop_launch_after_every_instance_over (L : CtrlLoop.Loop) (script : List Bool) (ops : List CtrlLoop.Op) :
     ∀ c lp, (CtrlLoop.run L script ops).launched = some (c, lp) →
       ∀ k, k ≤ c → ∀ n ∈ L.refs, n < L.n → lp k n = 3 :=
-  fun c lp h => ((C01Loop.inv_run L script ops).launch c lp h).2.2
+  fun c lp h k hk => (((C01Loop.inv_run L script ops).launch c lp h).2.2 k hk).1
+
+/-- ... and every producer of a loop condition so far (the consumer has an edge from each of them). -/
+theorem loop_launch_after_every_condition_producer_over (L : CtrlLoop.Loop) (script : List Bool)
+    (ops : List CtrlLoop.Op) :
+    ∀ c lp, (CtrlLoop.run L script ops).launched = some (c, lp) → ∀ k, k ≤ c → lp k L.cond = 3 :=
+  fun c lp h k hk => (((C01Loop.inv_run L script ops).launch c lp h).2.2 k hk).2
 
 /-- No iteration is instantiated after the consumer was launched: the loop is still at the iteration the launch
 saw (the producer of the current condition was in `comp_done`, and the next iteration is created before that). -/
